@@ -161,9 +161,26 @@ def endSegmentEntry : Entry := { opcode := CTO_Space, chars := [0xffff], dots :=
 
 def initTable : Table := { numPasses := 0, finalized := false }
 
+/-- the fold over the entries WITHOUT the finalisation step: the state of a table that has been compiled
+    (`compileTable`, which starts with the LOU_ENDSEGMENT rule) and to which rules may still be added
+    (`lou_compileString` runs the same `compileRule` on the same table, compileTranslationTable.c:4570-4590).
+    `none` = some entry is rejected -/
+def compileUnfinalised (es : List Entry) : Option Table :=
+  es.foldlM compileEntry ((compileEntry initTable endSegmentEntry).getD initTable)
+
+/-- `setDefaults` (4593) + `finalizeTable` (4490) on the fragment: no `base`, no `context` rules to re-file -/
+def finalise (t : Table) : Table :=
+  { t with numPasses := if t.numPasses == 0 then 1 else t.numPasses, finalized := true }
+
 /-- `compileTable` + `setDefaults` + `finalizeTable` on a list of entries; `none` = compilation fails -/
-def compile (es : List Entry) : Option Table :=
-  (es.foldlM compileEntry ((compileEntry initTable endSegmentEntry).getD initTable)).map fun t =>
-    { t with numPasses := if t.numPasses == 0 then 1 else t.numPasses, finalized := true }
+def compile (es : List Entry) : Option Table := (compileUnfinalised es).map finalise
+
+/-- `compileString` (4570-4590) on a table that may already be finalised: "Table is finalized" → 0, no effect.
+    Returns the return value and the table afterwards -/
+def compileString (t : Table) (e : Entry) : Bool × Table :=
+  if t.finalized then (false, t)
+  else match compileEntry t e with
+    | some t' => (true, t')
+    | none => (false, t)
 
 end Lou.Compile
